@@ -57,6 +57,7 @@ partial def spOfJson (j : Json) : Except String Sp := do
   | "tupTyping" => pure (.tupTyping (← sub "x") (← sub "y"))
   | "tupSub" => pure (.tupSub (← sub "x") (← sub "y"))
   | "tupCall" => pure (.tupCall (← sub "x") (← sub "y"))
+  | "pipeLit" => pure (.pipeLit (← sub "x") (← valOfJson (← j.getObjVal? "v")) (← (← j.getObjVal? "len").getNat?))
   | s => throw s!"spelling {s}"
 
 def dfltOfJson (j : Json) : Except String DefaultSp := do
